@@ -153,6 +153,15 @@ class Interp(ExprMixin):
             self.cur = prev
 
     # ---------------------------------------------------------------- logging
+    def owner_key(self):
+        """The function the current code belongs to from the rules' point of view: helpers that did not
+        exist when the rules were written (and closures) belong to their caller."""
+        known = known_functions()
+        for k in reversed(self.stack):
+            if k in known and '<locals>' not in k and '<lambda>' not in k:
+                return k
+        return self.stack[0] if self.stack else self.cur.key
+
     def log(self, st, kind, node, **data):
         # events raised inside helpers that did not exist when the rules were written (and inside
         # closures) count as the caller's own events: depth 0
@@ -275,6 +284,9 @@ class Interp(ExprMixin):
             st.events[depth_events:] = p.state.events[depth_events:]
         for c in p.state.conds:
             st.conds.append(c)
+        for lp in p.state.loops:
+            if lp not in st.loops:
+                st.loops.append(lp)          # loops executed inside the callee belong to this path too
         if p.status == 'raise':
             raise _Raised(p.exc, p.node)
         return p.ret
@@ -793,7 +805,7 @@ class Interp(ExprMixin):
             self.loop_depth -= 1
         for b in body_states:
             b.jump = None
-        info = {'node': s, 'func': self.cur.key, 'iter': it, 'pre': pre,
+        info = {'node': s, 'func': self.owner_key(), 'in': self.cur.key, 'iter': it, 'pre': pre,
                 'phi': {n: Poly.atom(('loop', f'{n}@{self.cur.name}:{line}', 'phi')) for n in names},
                 'ends': [{n: b.env.get(n) for n in names} for b in body_states],
                 'states': body_states, 'n_pre_events': len(st.events), 'n_pre_conds': len(st.conds),
